@@ -313,6 +313,14 @@ func report(c *hx.Ctx, ar *sh.Arena, or *hx.Oracle, cs *Case, f finding) {
 	c.Violation(f.class, what, small, f.noInput)
 }
 
+func numWorkers() int {
+	w := runtime.GOMAXPROCS(0)
+	if w > 16 {
+		w = 16
+	}
+	return w
+}
+
 // ---------- main ----------
 type job struct {
 	idx    int
@@ -363,7 +371,7 @@ func main() {
 		c.Finish("replay of one recorded case (observed after every op)")
 	}
 
-	ncases := 600
+	ncases := 4000
 	if c.Thorough() {
 		ncases *= 20
 	}
@@ -394,10 +402,7 @@ func main() {
 		}
 	}
 
-	workers := runtime.GOMAXPROCS(0)
-	if workers > 16 {
-		workers = 16
-	}
+	workers := numWorkers()
 	var wg sync.WaitGroup
 	next := make(chan *job, len(jobs))
 	for _, j := range jobs {
@@ -541,16 +546,40 @@ func runProbes(c *hx.Ctx, ar *sh.Arena) {
 	u := sh.SysUniverse()
 	r := hx.NewRNG(c.Seed ^ 0x5c5c)
 	answers := 0
+	type pj struct {
+		cs *Case
+		fs []sh.ProbeFinding
+		a  int
+	}
+	var pjs []*pj
 	for i := 0; i < n; i++ {
 		ops := sh.GenSysCase(r.Fork(uint64(i)), u)
 		for _, backend := range []string{"new", "legacy"} {
-			cs := &Case{Probe: "syscontract", Backend: backend, Universe: u, Ops: ops}
-			fs, a := probeRun(ar, cs)
-			answers += a
-			c.Hist["probe:syscontract-case-"+backend]++
-			for _, f := range fs {
-				probeReport(c, ar, cs, f)
+			pjs = append(pjs, &pj{cs: &Case{Probe: "syscontract", Backend: backend, Universe: u, Ops: ops}})
+		}
+	}
+	var wg sync.WaitGroup
+	next := make(chan *pj, len(pjs))
+	for _, j := range pjs {
+		next <- j
+	}
+	close(next)
+	for w := 0; w < numWorkers(); w++ {
+		wg.Add(1)
+		go func() {
+			defer wg.Done()
+			war := sh.NewArena()
+			for j := range next {
+				j.fs, j.a = probeRun(war, j.cs)
 			}
+		}()
+	}
+	wg.Wait()
+	for _, j := range pjs {
+		answers += j.a
+		c.Hist["probe:syscontract-case-"+j.cs.Backend]++
+		for _, f := range j.fs {
+			probeReport(c, ar, j.cs, f)
 		}
 	}
 	c.Extra["probe_syscontract_answers"] = answers
